@@ -99,6 +99,12 @@ def equiv_check(kinds, what):
         with open(sel, "w") as f:
             json.dump(mine, f)
         dist, gen, diffs, statics = K.run_equiv(prop, "equiv", sel, workers=12)
+        if "mode" in kinds:
+            small = [c for c in cases if c["kind"] == "mode" and len(c["pats"]) <= 10 and c["impl"]["n"] <= 60][:600 if q else 6000]
+            pth = os.path.join(out, "pipeline_cases.json")
+            with open(pth, "w") as f:
+                json.dump(small, f)
+            mreps.append(K.run_pipeline_drift(prop, "D-Pipeline", pth))
         K.log(f"[equiv] {prop}: {info['programs']} programs, {len(mine)} cases, {dist} product states, "
               f"{len(diffs)} differences, {len(statics)} static problems, {len(problems)} dump problems")
         # one violation per case
@@ -144,7 +150,7 @@ def equiv_check(kinds, what):
                         "(partition of all 1,112,064 scalars); non-trivial = more than 2 states",
                    exhaustive=True, source_programs=info["programs"], skipped_unsupported=info["skipped_unsupported"],
                    sources=sources, what=what,
-                   design_models=[{k: r[k] for k in ("name", "module", "expect", "tlc_distinct", "wall_s")} for r in mreps])
+                   design_models=[{k: r.get(k) for k in ("name", "module", "expect", "tlc_distinct", "wall_s", "automata_compared", "model_drift")} for r in mreps])
         K.write_evidence(prop, tier, seed, "translation_validation", cov,
                          ["TLC and its Json module; regex-syntax parser; the verif_dump/verif_eval_class hooks copy the compiled data faithfully "
                           "(cross-checked by the C01 trace legs which scan with the same automata)",
